@@ -6,6 +6,7 @@
 
 extern crate tlsh;
 
+mod aggstream;
 mod allocstream;
 mod cmpstream;
 mod codecstream;
@@ -13,6 +14,7 @@ mod codecstream;
 mod easystream;
 mod genstream;
 mod lenstream;
+mod tblstream;
 #[cfg(feature = "serde")]
 mod serdestream;
 mod util;
@@ -103,6 +105,12 @@ fn main() {
         #[cfg(feature = "serde")]
         "serde" => serdestream::stream_serde(&mut out, seed, budget),
         "alloc" => allocstream::stream_alloc(&mut out, seed, budget),
+        "agg" => aggstream::stream_agg(&mut out, seed, budget),
+        "tables" => tblstream::stream_tables(&mut out, seed, budget),
+        #[cfg(feature = "easy")]
+        "race" => tblstream::stream_race(&mut out, seed, budget),
+        #[cfg(feature = "easy")]
+        "race-child" => { tblstream::race_child(seed); return; }
         "kat" => genstream::stream_kat(&mut out, &format!("{}/kat.txt", corpus)),
         x => {
             eprintln!("unknown stream {}", x);
